@@ -1770,14 +1770,18 @@ func (node OrderBy) walkSubtree(visit Visit) error {
 
 // Format formats the node.
 func (node *Order) Format(buf *TrackedBuffer) {
-	if node, ok := node.Expr.(*NullVal); ok {
-		buf.Myprintf("%v", node)
-		return
-	}
-	if node, ok := node.Expr.(*FuncExpr); ok {
-		if node.Name.Lowered() == "rand" {
+	// `order by null` and `order by rand()` are printed without the default direction;
+	// an explicit direction (desc, nulls first, ...) is part of the statement and is kept.
+	if node.Direction == AscScr {
+		if node, ok := node.Expr.(*NullVal); ok {
 			buf.Myprintf("%v", node)
 			return
+		}
+		if node, ok := node.Expr.(*FuncExpr); ok {
+			if node.Name.Lowered() == "rand" {
+				buf.Myprintf("%v", node)
+				return
+			}
 		}
 	}
 
